@@ -293,6 +293,9 @@ func genScenario(r *rng.R) (*Scenario, []string) {
 	}
 	g := &gstate{r: r, sc: sc, nextID: 1}
 	g.p = peer{sender: "Client", target: "Server"}
+	if r.Chance(1, 5) { // identifiers are free text: one that contains what looks like a field
+		g.p.sender = []string{"LDN34=A", "C35=0", "X10=000", "N9=1"}[r.Intn(4)]
+	}
 	if sc.Side == "I" {
 		g.p = peer{sender: "Server", target: "Client"}
 	}
